@@ -61,6 +61,37 @@ def judge(trace, timeout=600):
     return verdict["runs"], verdict["bad"]
 
 
+NETTRACE_CFG = """SPECIFICATION TraceSpec
+CONSTANTS
+  V7 = FALSE
+  TokenMode = TRUE
+  SeqStart = 0
+  Addrs = {%(addrs)s}
+  Accepting = %(accepting)s
+  NSizes = {1}
+  MaxCreated = 1000000
+  MaxFeeds = 1000000
+  MaxCalls = 1000000
+  MaxTicks = 1000000
+  MaxRewind = 0
+VIEW TraceView
+INVARIANT DeadlineOk
+PROPERTIES FreshIds Creation Removal Isolation
+POSTCONDITION TraceAccepted
+CHECK_DEADLOCK FALSE
+"""
+
+
+def strict_trace(ctx, tr, accepting, addrs, tag, timeout=900):
+    """Strict validation of a recorded Net trace against Net.tla (NetTrace): returns (accepted, TlcResult).
+    C20's action properties and DeadlineOk are evaluated on the implementation's own execution."""
+    cfgp = os.path.join(ctx.workdir, "NetTrace_%s.cfg" % tag)
+    names = ", ".join('"%s"' % chr(ord("a") + i) for i in range(addrs))
+    open(cfgp, "w").write(NETTRACE_CFG % {"addrs": names, "accepting": "TRUE" if accepting else "FALSE"})
+    ok, res = core.validate_trace("NetTrace.tla", cfgp, tr, cwd=SPECDIR, timeout=timeout, heap="4g")
+    return ok, res
+
+
 def export_replay(ctx, bins, name, c, timeout):
     cand = os.path.join(ctx.workdir, "cand_%s.ndjson" % name)
     cmd = [os.path.join(bins, "vh-net"), "replay", "--accepting", "1" if c["Accepting"] else "0",
@@ -122,7 +153,7 @@ def drive(ctx, bins, accepting, addrs, seed, events):
     rep = {"accepting": accepting, "addrs": addrs, "path": acts, "seed": seed}
     if rc == 97:
         ctx.report("hang:drive", "C20: a call into the endpoint did not return", rep)
-        return
+        return None
     if rc != 0:
         raise core.ToolError("vh-net drive failed rc=%s" % rc)
     nruns, bad = judge(tr)
@@ -133,6 +164,67 @@ def drive(ctx, bins, accepting, addrs, seed, events):
     for b in bad:
         cut = max(1, b["line"] - 1)
         ctx.report("%s|drive" % b["why"][:70], b["why"], dict(rep, path=acts[:cut]))
+    # strict: the same trace must be a behaviour of Net.tla, line by line
+    ok, res = strict_trace(ctx, tr, accepting, addrs, "%d_%d_%d" % (1 if accepting else 0, addrs, seed))
+    ctx.coverage["traces_validated_against_impl"] += 1
+    ctx.coverage["states"] += res.distinct
+    ctx.coverage["transitions"] += res.generated
+    opaque = sum(1 for l in lines if l.get("a") == "feed" and not l.get("clean", True)) + \
+        sum(1 for l in lines if l.get("a") == "tick" and "failaddr" in l.get("act", {}))
+    ctx.add_run("strict trace (NetTrace) accepting=%s addrs=%d seed=%d" % (accepting, addrs, seed), events=len(lines),
+                matched=max(0, res.distinct - 1), opaque_steps=opaque, accepted=ok, violated=res.violated)
+    if res.violated:
+        cut = max(1, res.distinct)
+        ctx.report("trace-property:%s|drive" % res.violated,
+                   "C20: %s violated on a recorded execution of the real endpoint (strict trace, line %d)" % (res.violated, res.distinct),
+                   dict(rep, path=acts[:cut]))
+    elif not ok and not bad:
+        m = [l for l in res.out.splitlines() if "TRACE REJECTED" in l]
+        ctx.report_drift("recorded trace accepting=%s seed=%d leaves the detailed spec Net.tla (%s) but agrees with independent "
+                         "connections (NetIso accepts)" % (accepting, seed, (m[0] if m else res.error or "no successor")[:200]))
+    return tr
+
+
+def binding_demo(ctx, tr, accepting, addrs):
+    """The strict trace spec really constrains: (1) one acknowledged sequence number altered in one recorded line =>
+    rejected at that line; (2) an opaque step made to touch another address's peer => Isolation violated."""
+    import copy
+    lines = core.read_ndjson(tr)
+    out = {}
+    a = copy.deepcopy(lines)
+    at = None
+    for i, r in enumerate(a):
+        if r.get("a") == "feed" and r.get("clean") and len(r["st"]["peers"]) >= 2 and i > 30:
+            r["st"]["peers"][0]["x"]["ack"] = (r["st"]["peers"][0]["x"]["ack"] + 1) % 1024
+            at = i + 1
+            break
+    if at:
+        f = os.path.join(ctx.workdir, "binding1.ndjson")
+        open(f, "w").write("\n".join(json.dumps(x) for x in a) + "\n")
+        ok, res = strict_trace(ctx, f, accepting, addrs, "binding1")
+        out["altered_ack_line"] = at
+        out["altered_ack_rejected_at"] = None if ok else res.distinct
+    b = copy.deepcopy(lines)
+    at = None
+    for i, r in enumerate(b):
+        if r.get("a") == "feed" and not r.get("clean") and len(r["st"]["peers"]) >= 2 and i > 30:
+            for p in r["st"]["peers"]:
+                if p["addr"] != r["act"]["addr"]:
+                    p["x"]["seq"] = (p["x"]["seq"] + 1) % 1024
+                    at = i + 1
+                    break
+            if at:
+                break
+    if at:
+        f = os.path.join(ctx.workdir, "binding2.ndjson")
+        open(f, "w").write("\n".join(json.dumps(x) for x in b) + "\n")
+        ok, res = strict_trace(ctx, f, accepting, addrs, "binding2")
+        out["foreign_peer_touched_line"] = at
+        out["foreign_peer_touched_verdict"] = res.violated
+    ctx.add_run("binding demonstration (NetTrace)", **out)
+    good = out.get("altered_ack_rejected_at") == out.get("altered_ack_line") and out.get("foreign_peer_touched_verdict") == "Isolation"
+    if not good:
+        raise core.ToolError("binding demonstration of NetTrace failed: %s" % out)
 
 
 def run(ctx):
@@ -141,7 +233,10 @@ def run(ctx):
     ctx.coverage["rule"] = ("TLC checks Net.tla (composition of per-peer Conn records; adversarial datagram alphabet per address); every "
                             "transition of the export configurations is replayed on a real Net<u8> with the complete projected state, "
                             "events, per-address datagrams and needs_tick compared; deviations and random 8-address interleavings are "
-                            "judged by NetIso.tla against per-address shadow Connections (distinct = distinct spec states reached)")
+                            "judged by NetIso.tla against per-address shadow Connections (distinct = distinct spec states reached); the "
+                            "recorded 8-address traces are also validated line by line against Net.tla itself (NetTrace.tla: complete "
+                            "projected state per line; C20's action properties evaluated on the real execution; datagrams outside the "
+                            "modelled alphabet are opaque steps on which only isolation/creation/removal are demanded)")
     ctx.assumptions += ["at most one live peer per address (drivers)", "callers only make calls the state permits",
                         "hook net::verif is faithful"]
     mc = [("server", N(MaxFeeds=3, MaxCalls=2, MaxRewind=1)), ("client", N(Accepting=False, MaxFeeds=3, MaxCalls=2))]
@@ -160,7 +255,9 @@ def run(ctx):
     for s in conn.run_parallel([(export_replay, (ctx, bins, n, c, 600 if q else 3000)) for n, c in ex], 6):
         if s is not None:
             handle(ctx, s)
-    conn.run_parallel([(drive, (ctx, bins, a, n, ctx.seed * 100 + sd, ev)) for a, n, sd, ev in dr], 6)
+    trs = conn.run_parallel([(drive, (ctx, bins, a, n, ctx.seed * 100 + sd, ev)) for a, n, sd, ev in dr], 6)
+    if not q and trs and trs[0] and not ctx.violations:
+        binding_demo(ctx, trs[0], dr[0][0], dr[0][1])
 
 
 def replay(ctx, path):
